@@ -136,3 +136,79 @@ def histogram(ctx, impl, key):
         k = m.group(1) if m else l.split(" ")[0]
         h[k] = h.get(k, 0) + 1
     ctx.notes.append({key: dict(sorted(h.items(), key=lambda kv: -kv[1])[:40])})
+
+
+# ---------------------------------------------------------------------------------------------------------------
+# signature opcodes without a transaction: every (signature shape, key shape) pairing, where the encoding rules
+# (DERSIG, LOW_S, STRICTENC, WITNESS_PUBKEYTYPE, NULLFAIL, NULLDUMMY) decide alone
+def _der(r, s, ht):
+    def i(n):
+        b = n.to_bytes((n.bit_length() + 7) // 8 or 1, "big")
+        if b[0] & 0x80: b = b"\x00" + b
+        return b"\x02" + bytes([len(b)]) + b
+    body = i(r) + i(s)
+    return b"\x30" + bytes([len(body)]) + body + bytes([ht])
+
+SIG_SHAPES = {
+    "empty": b"",
+    "der-low": _der(1, 1, 1),
+    "der-high-s": _der(1, 0xFFFFFFFFFFFFFFFFFFFFFFFFFFFFFFFEBAAEDCE6AF48A03BBFD25E8CD0364140, 1),
+    "der-undefined-hashtype": _der(1, 1, 5),
+    "der-zero-hashtype": _der(1, 1, 0),
+    "non-der": bytes.fromhex("300602010102010201")[:-3] + b"\x01",
+    "padded-der": bytes.fromhex("3008020200010202000101"),
+    "one-byte": b"\x01",
+    "64-bytes": bytes(range(64)),
+}
+KEY_SHAPES = {
+    "compressed": b"\x02" + b"\x11" * 32,
+    "compressed-odd": b"\x03" + b"\x22" * 32,
+    "uncompressed": b"\x04" + b"\x33" * 64,
+    "hybrid": b"\x06" + b"\x33" * 64,
+    "prefix-05": b"\x05" + b"\x11" * 32,
+    "two-bytes": b"\x02\x02",
+    "empty": b"",
+    "xonly-32": b"\x44" * 32,
+    "34-bytes": b"\x02" + b"\x11" * 33,
+}
+SIGOP_FLAGS = ("DERSIG", "LOW_S", "STRICTENC", "WITNESS_PUBKEYTYPE", "NULLFAIL", "NULLDUMMY", "CONST_SCRIPTCODE", "MINIMALDATA")
+
+
+def sigop_cases(rnd, n_multi=400):
+    """(sigver, script, stack, label): OP_CHECKSIG / VERIFY / CHECKSIGADD on every (sig, key) shape pair, OP_CHECKMULTISIG / VERIFY on
+    m-of-n mixtures; each also wrapped in OP_NOT so that a failed check that is allowed to fail shows as success"""
+    out = []
+    for sn, sg in SIG_SHAPES.items():
+        for kn, k in KEY_SHAPES.items():
+            for sv in (0, 1, 3):
+                out.append((sv, bytes([0xac]), [sg, k], f"checksig {sn}/{kn}"))
+                out.append((sv, bytes([0xac, 0x91]), [sg, k], f"checksig-not {sn}/{kn}"))
+            out.append((0, bytes([0xad, 0x51]), [sg, k], f"checksigverify {sn}/{kn}"))
+            out.append((3, bytes([0xba]), [sg, b"", k], f"checksigadd {sn}/{kn}"))
+            for sv in (0, 1):
+                out.append((sv, bytes([0xae, 0x91]), [b"", sg, b"\x01", k, b"\x01"], f"multisig-1of1-not {sn}/{kn}"))
+                out.append((sv, bytes([0xae]), [b"", sg, b"\x01", k, b"\x01"], f"multisig-1of1 {sn}/{kn}"))
+    sigs = list(SIG_SHAPES.items()); keys = list(KEY_SHAPES.items())
+    for _ in range(n_multi):
+        n = rnd.choice((1, 2, 2, 3, 4))
+        m = rnd.randrange(0, n + 1)
+        ks = [rnd.choice(keys) for _ in range(n)]
+        ss = [rnd.choice(sigs) if rnd.random() < 0.6 else ("empty", b"") for _ in range(m)]
+        dummy = rnd.choice((b"", b"", b"\x01"))
+        stack = [dummy] + [s for _, s in ss] + [scriptnum(m)] + [k for _, k in ks] + [scriptnum(n)]
+        lab = "multisig %d-of-%d sigs=%s keys=%s" % (m, n, "+".join(a for a, _ in ss), "+".join(a for a, _ in ks))
+        sv = rnd.choice((0, 0, 1))
+        out.append((sv, bytes([0xae]) + (bytes([0x91]) if rnd.random() < 0.5 else b""), stack, lab))
+        out.append((sv, bytes([0xaf, 0x51]), stack, lab + " verify"))
+    return out
+
+
+def flag_chain(rnd, top, names, k=None):
+    """a chain top = A0 ⊇ A1 ⊇ ... obtained by dropping the named flags one at a time in a random order"""
+    bits = [FLAG_BITS[n] for n in names if top >> FLAG_BITS[n] & 1]
+    rnd.shuffle(bits)
+    chain = [top]; cur = top
+    for b in bits[: (k if k is not None else len(bits))]:
+        cur &= ~(1 << b)
+        chain.append(cur)
+    return chain
